@@ -1,0 +1,121 @@
+//go:build verif
+
+/*
+/*
+ Licensed to the Apache Software Foundation (ASF) under one
+ or more contributor license agreements.  See the NOTICE file
+ distributed with this work for additional information
+ regarding copyright ownership.  The ASF licenses this file
+ to you under the Apache License, Version 2.0 (the
+ "License"); you may not use this file except in compliance
+ with the License.  You may obtain a copy of the License at
+
+     http://www.apache.org/licenses/LICENSE-2.0
+
+ Unless required by applicable law or agreed to in writing, software
+ distributed under the License is distributed on an "AS IS" BASIS,
+ WITHOUT WARRANTIES OR CONDITIONS OF ANY KIND, either express or implied.
+ See the License for the specific language governing permissions and
+*/
+
+package objects
+
+import (
+	"time"
+
+	"github.com/apache/yunikorn-core/pkg/common/resources"
+)
+
+// Verification hooks (build tag "verif" only) used by the core engine of the external harness:
+// deterministic timer firing, package timing variables and raw views of unexported state.
+
+// VerifCoreSetTimeouts sets the package level timing variables; a zero value leaves a variable unchanged.
+func VerifCoreSetTimeouts(completing, terminated, resDelay, resWait time.Duration) {
+	if completing != 0 {
+		completingTimeout = completing
+	}
+	if terminated != 0 {
+		terminatedTimeout = terminated
+	}
+	if resDelay != 0 {
+		reservationDelay = resDelay
+	}
+	if resWait != 0 {
+		reservationWaitTimeout = resWait
+	}
+}
+
+// VerifCoreTimers reports whether the placeholder timer and the state timer of the application are armed.
+func (sa *Application) VerifCoreTimers() (bool, bool) {
+	sa.RLock()
+	defer sa.RUnlock()
+	return sa.placeholderTimer != nil, sa.stateTimer != nil
+}
+
+// VerifCoreFirePlaceholderTimer runs the placeholder timeout now if the timer is armed.
+func (sa *Application) VerifCoreFirePlaceholderTimer() bool {
+	sa.Lock()
+	if sa.placeholderTimer == nil {
+		sa.Unlock()
+		return false
+	}
+	sa.placeholderTimer.Stop()
+	sa.Unlock()
+	sa.timeoutPlaceholderProcessing()
+	return true
+}
+
+// VerifCoreFireStateTimer runs the state timeout now if the timer is armed. The timer is always
+// created for the state the application is in when it is armed, with the event that state implies.
+func (sa *Application) VerifCoreFireStateTimer() bool {
+	sa.Lock()
+	if sa.stateTimer == nil {
+		sa.Unlock()
+		return false
+	}
+	sa.stateTimer.Stop()
+	state := sa.stateMachine.Current()
+	event := ExpireApplication
+	if state == Completing.String() {
+		event = CompleteApplication
+	}
+	sa.Unlock()
+	sa.timeoutStateTimer(state, event)()
+	return true
+}
+
+// VerifCoreRaw returns clones of the ledgers of the application.
+func (sa *Application) VerifCoreRaw() (pending, allocated, placeholder, placeholderAsk *resources.Resource, hasPh bool) {
+	sa.RLock()
+	defer sa.RUnlock()
+	return sa.pending.Clone(), sa.allocatedResource.Clone(), sa.allocatedPlaceholder.Clone(), sa.placeholderAsk.Clone(), sa.hasPlaceholderAlloc
+}
+
+// VerifCoreReservations returns (nodeID, allocationKey) for every reservation of the application.
+func (sa *Application) VerifCoreReservations() [][2]string {
+	sa.RLock()
+	defer sa.RUnlock()
+	out := make([][2]string, 0, len(sa.reservations))
+	for _, r := range sa.reservations {
+		out = append(out, [2]string{r.nodeID, r.allocKey})
+	}
+	return out
+}
+
+// VerifCoreReservations returns (appID, allocationKey) for every reservation on the node.
+func (sn *Node) VerifCoreReservations() [][2]string {
+	sn.RLock()
+	defer sn.RUnlock()
+	out := make([][2]string, 0, len(sn.reservations))
+	for _, r := range sn.reservations {
+		out = append(out, [2]string{r.appID, r.allocKey})
+	}
+	return out
+}
+
+// VerifCoreRaw returns clones of the configured max and guaranteed resources (nil preserved).
+func (sq *Queue) VerifCoreRaw() (maxRes, guaranteed *resources.Resource) {
+	sq.RLock()
+	defer sq.RUnlock()
+	return sq.maxResource.Clone(), sq.guaranteedResource.Clone()
+}
